@@ -83,6 +83,17 @@ def make_prog(rng, base=None, opts=None):
                 if q["id"] == p["id"]:
                     q["args"] = q["args"] + [extra]
             prog["defect"] += "+dup-param"
+    # a value expression written in a library set that mentions an unexported field (C13/C01: not accessible
+    # from the injector's package)
+    if rng.random() < opts.get("unexported_p", 0.08):
+        cands = [(x, v) for x in spec.all_sets(tree) if x["pkg"] == 1 for v in x["values"] if kinds.get(v["out"] // 2) != "iface"]
+        if cands:
+            x, v = rng.choice(cands)
+            for y in spec.all_sets(tree):
+                for w in y["values"]:
+                    if w["id"] == v["id"]:
+                        w["unexported"] = True; w["ok"] = False
+            prog["defect"] += "+value-unexported"
     # field-name literal spellings (C12): wrong case, unknown name, raw string, prevented field
     sps = [p for p in allp if p["struct"] and p["fields"]]
     if sps and rng.random() < opts.get("lit_p", 0.06):
@@ -394,7 +405,10 @@ class Render:
                 out.append("wire.InterfaceValue(new(%s%s), %sNewImpl%d(\"val%d\"))" % (q, self.tn(t // 2), q, t // 2, v["id"]))
                 v["_call"] = True
             else:
-                out.append("wire.Value(%s)" % self.mkval(t, '"val%d"' % v["id"], pkg, fields_from_id=False))
+                e = self.mkval(t, '"val%d"' % v["id"], pkg, fields_from_id=False)
+                if v.get("unexported"):
+                    e = e[:-1] + ", hid: 1}"
+                out.append("wire.Value(%s)" % e)
         for f in s["fields"]:
             par = f["parent"]
             out.append('wire.FieldsOf(new(%s%s%s), "%s")' % ("*" if par % 2 else "", q, self.tn(par // 2), f["name"]))
@@ -435,7 +449,7 @@ class Render:
                 L.append("func NewImpl%d(id string) %s { return Impl%d{ID: id} }\n" % (k, n, k))
                 L.append('func DescI%d(x %s) string {\n\tif x == nil {\n\t\treturn "nil"\n\t}\n\treturn x.Desc()\n}\n' % (k, n))
                 continue
-            fl = ["\tID string `wire:\"-\"`"]
+            fl = ["\tID string `wire:\"-\"`", "\thid int `wire:\"-\"`"]
             for f in td["fields"]:
                 tag = (" `%s`" % f["tag"]) if f["tag"] else ""
                 fl.append("\t%s %s%s" % (f["name"], self.ty(f["t"], 1), tag))
